@@ -219,14 +219,31 @@ func (s *Server) Run(addr string, opt ...Option) error {
 			return fmt.Errorf("%s: error accepting conn: %w", op, err)
 		}
 		acceptDelay = 0
+		// register the conn with the wait group, unless the server has been
+		// stopped in the meantime: Stop holds the read lock while it cancels
+		// and waits, so it either sees this conn or we see its cancellation.
+		s.mu.Lock()
+		stopped := s.shutdownCtx.Err() != nil
+		if !stopped {
+			s.connWg.Add(1)
+		}
+		s.mu.Unlock()
+		if stopped {
+			s.logger.Debug("closing conn accepted while stopping", "op", op, "conn", connID)
+			_ = c.Close()
+			if s.onCloseHandler != nil {
+				s.onCloseHandler(connID)
+			}
+			continue
+		}
 		s.logger.Debug("new connection accepted", "op", op, "conn", connID)
 		conn, err := newConn(s.shutdownCtx, connID, c, s.logger, s.router)
 		if err != nil {
+			s.connWg.Done()
 			return fmt.Errorf("%s: unable to create in-memory conn: %w", op, err)
 		}
 		conn.disablePanicRecovery = s.disablePanicRecovery
 		localConnID := connID
-		s.connWg.Add(1)
 		go func() {
 			defer func() {
 				// this needs to be the very last thing we do, since Stop is
